@@ -1,4 +1,5 @@
 import PngVerif.Model.Reader
+import PngVerif.Model.Transform
 import PngVerif.Driver.Framing
 /-! Line protocol for the `Reader` model (C02, C05, C09, C13, C18).
   `rdr run <opts> <limit|max> <flags 0..7> <filehex> <visible0> <ops>`
@@ -8,11 +9,56 @@ import PngVerif.Driver.Framing
 namespace Png.Driver
 open Png Png.Framing Png.Reader
 
-/-- identity transformation only (flags = 0); `copy_from_slice` panics on a length mismatch -/
-def identityT : TCfg where
-  outColorDepth := fun i _ => (i.color, i.depth)
-  create := fun _ _ => .ok ()
-  apply := fun _ _ _ row outLen => if row.length = outLen then some row else none
+/-- the part of `Info` the transformations read -/
+def tInfo (i : Info) : Option Transform.Info := do
+  let ct ← Transform.ColorType.ofNat? i.color
+  let bd ← Transform.BitDepth.ofNat? i.depth
+  some { colorType := ct, bitDepth := bd, palette := i.palette, trns := i.trns }
+
+def tFlags (f : Flags) : Transform.Flags := ⟨f.expand, f.strip16, f.alpha⟩
+
+def isPaletteKind : Transform.Kind → Bool
+  | .paletteRgba | .paletteRgb8 | .paletteRgb => true
+  | _ => false
+
+/-- `Model/Transform.lean` behind the `Reader` model: selection (and the memo palette) come from the `Info`
+    the function was created from, everything else the row functions read comes from the current `Info` -/
+def realT : TCfg where
+  outColorDepth := fun i f =>
+    match tInfo i with
+    | some ti =>
+      match Transform.outputColorType ti (tFlags f) with
+      | .ok (c, d) => (c.toNat, d.toNat)
+      | .error _ => (i.color, i.depth)
+    | none => (i.color, i.depth)
+  create := fun i f =>
+    match tInfo i with
+    | none => .error "panic: illegal colour type / depth in Info"
+    | some ti =>
+      match Transform.selectTransform ti (tFlags f) with
+      | .error .paletteRequired => .error "PaletteRequired"
+      | .error .invalidColorBitDepth => .error "InvalidColorBitDepth"
+      | .error .panic => .error "panic: assert_eq!(bit_depth, 16) (transform.rs:66)"
+      | .ok k =>
+        if isPaletteKind k then
+          match ti.palette with
+          | none => .error "panic: expect(Caller should verify)"
+          | some pal =>
+            match Transform.createRgbaPalette pal ti.trns with
+            | .ok _ => .ok ()
+            | .error _ => .error "panic: create_rgba_palette slice index (palette.rs:67-87)"
+        else .ok ()
+  apply := fun snap f cur row outLen =>
+    match tInfo snap, tInfo cur with
+    | some ts, some tc =>
+      match Transform.selectTransform ts (tFlags f) with
+      | .error _ => none
+      | .ok k =>
+        let info := if isPaletteKind k then { tc with palette := ts.palette, trns := ts.trns } else tc
+        match Transform.applyKind info k row (List.replicate outLen 0) with
+        | .ok out => some out
+        | .error _ => none
+    | _, _ => none
 
 def hex64' (x : UInt64) : String :=
   String.ofList ((List.range 16).map fun i => hexChar ((x >>> (4 * (15 - i)).toUInt64) &&& 15).toUInt8)
@@ -38,6 +84,7 @@ def resStr : Res → String
 
 def parseRdrOp (s : String) : Option Op :=
   if s == "ri" then some .readInfo
+  else if s == "rh" then some .readHeader
   else if s == "nr" then some .nextRow
   else if s == "rr" then some .readRow
   else if s == "fi" then some .nextFrameInfo
@@ -49,7 +96,7 @@ def parseRdrOp (s : String) : Option Op :=
   else if s.startsWith "g" then (s.drop 1).toString.toNat?.map .grow
   else none
 
-def rdr (args : List String) (tOf : Flags → Option TCfg := fun f => if f.identity then some identityT else none) : String :=
+def rdr (args : List String) (tOf : Flags → Option TCfg := fun _ => some realT) : String :=
   match args with
   | ["run", opts, limit, flags, file, vis, ops] =>
     match parseOpts opts, (if limit == "max" then some (2 ^ 64 - 1) else limit.toNat?), flags.toNat?, parseHexL file, vis.toNat?, (ops.splitOn ",").mapM parseRdrOp with
@@ -60,8 +107,17 @@ def rdr (args : List String) (tOf : Flags → Option TCfg := fun f => if f.ident
       | some t =>
         let cfg := realCfg (!o.ignoreAdler)
         let r0 := R.init o lim flg f (min v f.length)
-        let (r, res) := Reader.run cfg t r0 opl
-        s!"{" ".intercalate (res.map resStr)} | {infoStr r.dec.info} | rem={r.remaining} caf={if r.sub.caf then 1 else 0} fin={if r.finished then 1 else 0}"
+        -- calls whose caller-side buffer would exceed 4 MiB are not made (`toolarge`), as in the harness
+        let big (r : R) (op : Op) : Bool :=
+          match r.dec.info, op with
+          | some i, .nextFrame _ => r.isReader && outLineSize t i r.flags i.width * i.height > 4194304
+          | some i, .nextRow => r.isReader && outLineSize t i r.flags i.width > 4194304
+          | some i, .readRow => r.isReader && outLineSize t i r.flags i.width > 4194304
+          | _, _ => false
+        let (r, res) := opl.foldl (fun (acc : R × List String) op =>
+            if big acc.1 op then (acc.1, acc.2 ++ ["toolarge"])
+            else let (r', x) := Reader.step cfg t acc.1 op; (r', acc.2 ++ [resStr x])) (r0, [])
+        s!"{" ".intercalate res} | {infoStr r.dec.info} | rem={r.remaining} caf={if r.sub.caf then 1 else 0} fin={if r.finished then 1 else 0}"
     | _, _, _, _, _, _ => "bad-op"
   | _ => "bad-op"
 
